@@ -24,7 +24,7 @@ impl Prop for C03 {
     }
     fn strategy(&self, _tier: Tier) -> BoxedStrategy<PktCase> {
         prop_oneof![
-            5 => (gen::enc_env(gen::addr7().boxed()), gen::enc_call(false, false, true)).prop_map(|(env, call)| PktCase::Enc(EncCase { env, call })),
+            5 => gen::enc_pair(gen::addr7().boxed(), gen::enc_call(false, false, true)).prop_map(|(env, call)| PktCase::Enc(EncCase { env, call })),
             1 => gen::resp_case().prop_map(PktCase::Resp),
         ]
         .boxed()
@@ -36,7 +36,7 @@ impl Prop for C03 {
         }
     }
     fn required_labels(&self) -> Vec<&'static str> {
-        vec!["len12-15", "len16-31", "len32-63", "len64-127", "len128-255", "len256-259", "process_packet_response"]
+        vec!["len12-15", "len16-31", "len32-63", "len64-127", "len128-255", "len256-259", "process_packet_response", "response_to_request_with_unrelated_source_address"]
     }
     fn enumerate(&self, tier: Tier, shard: usize, nshards: usize, f: &mut dyn FnMut(PktCase)) {
         let mut idx = 0usize;
@@ -66,7 +66,10 @@ impl Prop for C03 {
             }
             PktCase::Resp(c) => {
                 r.label("process_packet_response");
-                let Some(p) = produce_response(c) else { return r };
+                let Some(p) = produce_response_opt(c, false) else { return r };
+                if c.req.len() > 6 && c.req[3] != (((c.req[6] & 0x7F) << 1) | 1) {
+                    r.label("response_to_request_with_unrelated_source_address");
+                }
                 (p.buf, p.len, p.kind)
             }
         };
